@@ -17,6 +17,7 @@ package utils
 
 //@ func TemporaryEvaluate(md) (err)
 //@   props C14
+//@   modifies nothing
 //@   probe groups: mdGet(md, "groups")
 //@   probe admins: envOf("ADMINGROUPS")
 //@   ensures {C14} admin-accepted: isAdmin(mdGet(md, "groups"), envOf("ADMINGROUPS")) ==> err == nil
@@ -28,3 +29,27 @@ package utils
 //@   modifies nothing
 //@   ensures {C14} exact-member: r == isField(group, adminGroups, ",")
 //@   loop 1 invariant 0 - 1 <= rangeindex && (forall j int :: 0 <= j && j <= rangeindex ==> splitAt(adminGroups, ",", j) != group)
+
+//@ import pb "github.com/openconfig/gnmi/proto/gnmi"
+
+// Textual form of a gNMI path: a function of the message contents. Assumed at call sites (the
+// functional behaviour of these functions is the subject of C16).
+//@ uninterp strPathOf(*pb.Path) string
+//@ func StrPath(path) (r)
+//@   trusted
+//@   modifies nothing
+//@   ensures r == strPathOf(path)
+//@   ensures path == nil ==> r == "/"
+//@ func StrPathElem(pathElem) (r)
+//@   trusted
+//@   modifies nothing
+//@ func SplitPath(path) (r)
+//@   trusted
+//@   modifies nothing
+//@   fresh r
+//@ func ParseGNMIElements(elms) (r, err)
+//@   trusted
+//@   modifies nothing
+//@   fresh r
+//@   ensures err != nil ==> r == nil
+//@   ensures err == nil ==> r != nil
